@@ -117,6 +117,19 @@ def judge (prop : String) (j : Json) : R Verdict := do
         let n ← str n; let c ← str c
         if c != "err:MissingTxArg:" ++ n then spec := spec ++ ["missing_arg:" ++ c]
       | _ => throw "bad missing"
+    -- all arguments but one: exactly that one stays pending (and the model's substitution says the same)
+    for m in (fieldD obs "partial").getArr?.toOption.getD #[] do
+      match ← arr m with
+      | [n, after, un] =>
+        let n ← str n
+        let part := args.filter (·.1 != n)
+        if !(← sameTx after (tx.applyArgs part)) then corr := corr ++ ["after_args_partial"]
+        if allArgs && !(isNull un) then
+          let u ← parseUnresolved un
+          let pendingValues := (u.filter (·.1 == "value")).map (·.2)
+          if !(pendingValues.all (· == n)) then spec := spec ++ ["closes:partial-application-leaves-others-pending"]
+          if pendingValues.isEmpty then spec := spec ++ ["closes:partial-application-lost-the-missing-one"]
+      | _ => throw "bad partial"
   if prop == "C14" then
     -- any stage of the real pipeline that panicked
     for f in ["after_args", "after_inputs", "after_fees", "reduced0", "reduced0_twice", "compiled0",
